@@ -160,6 +160,7 @@ type runObs struct {
 	finalTree map[string]string // script name -> tree of its work directory ("" when absent)
 	alive     []string          // recorded pids that are still alive
 	escaped   []string          // $WORK-named archive entries found at the file-system root
+	hostLeak  []string          // PATH values with which the host-only program was run although they do not lead to it
 	isRoot    bool
 }
 
@@ -227,6 +228,12 @@ func (rn *runner) runBatch(b *Batch, dl *DeadlineJob, sched []int) *runObs {
 	if err := os.Link(rn.helper, helper); err != nil {
 		data, _ := os.ReadFile(rn.helper)
 		os.WriteFile(helper, data, 0o755)
+	}
+	// a program that is on the PATH of the test process only: a script that has replaced its PATH must
+	// not be able to run it by its bare name
+	if err := os.Link(rn.helper, filepath.Join(dir, "bin", "hostcanary")); err != nil {
+		data, _ := os.ReadFile(rn.helper)
+		os.WriteFile(filepath.Join(dir, "bin", "hostcanary"), data, 0o755)
 	}
 	// $WORK-named entries: nothing of that name may be at the root beforehand
 	var workNamed []string
@@ -358,6 +365,21 @@ func (rn *runner) runBatch(b *Batch, dl *DeadlineJob, sched []int) *runObs {
 			}
 			return nil
 		})
+	}
+	if notes, _ := filepath.Glob(filepath.Join(dir, "obs", "hostcanary-*")); len(notes) > 0 {
+		hostBin := filepath.Join(dir, "bin")
+		for _, n := range notes {
+			pv, _ := os.ReadFile(n)
+			leads := false
+			for _, d := range filepath.SplitList(string(pv)) {
+				if d == hostBin {
+					leads = true
+				}
+			}
+			if !leads {
+				ro.hostLeak = append(ro.hostLeak, strings.ReplaceAll(string(pv), dir, "$RUN"))
+			}
+		}
 	}
 	ents, _ := os.ReadDir(filepath.Join(dir, "tmp"))
 	for _, e := range ents {
@@ -672,6 +694,9 @@ func (rn *runner) evalBatch(b *Batch, withAlone bool, sched []int) ([]finding, *
 			add("correspondence", "names", "RunT named the subtests differently from the harness's expectation", fmt.Sprint(want), fmt.Sprint(ro.res.Names))
 			return fs, ro
 		}
+	}
+	if len(ro.hostLeak) > 0 {
+		add("impl-violation", "env/host-path", "a program that only the PATH of the test process leads to ($RUN/bin/hostcanary) was run by its bare name from a script whose PATH is "+strings.Join(ro.hostLeak, " | "), "", "")
 	}
 	if len(ro.escaped) > 0 {
 		add("impl-violation", "workdir/escape", "archive entries were unpacked outside the work directory of their script, at "+strings.Join(ro.escaped, ", "), "", "")
@@ -1165,6 +1190,26 @@ func (rn *runner) mainC04() {
 		hb.NonRoot = rn.nonRoot
 		hb.ContinueOnError = k%2 == 1
 		addB(hb, "hand")
+	}
+	// background command names used twice; a narrowed PATH and a program of the host's PATH; a
+	// background command that writes below $WORK while it shuts down, in a script that fails midway
+	{
+		files := []File{{Path: "bin/mytool", Data: "#!/bin/sh\nexit 0\n"}}
+		hb := Batch{Procs: 4, Par: 8, Canary: true, NonRoot: rn.nonRoot}
+		hb.Scripts = []Script{
+			{Name: "dupname", Files: files, Body: []Action{{Op: "G", ID: 1, Flag: true}, {Op: "J", ID: 1}, {Op: "O"}}},
+			{Name: "dupcont", Files: files, Body: []Action{{Op: "D", ID: 1}, {Op: "G", ID: 1, Flag: true}, {Op: "G", ID: 2, Flag: true}, {Op: "J", ID: 2}}},
+			{Name: "hostpath", Files: files, Body: []Action{{Op: "H", Key: "hostcanary"}, {Op: "P", Path: "bin"}, {Op: "H", Flag: true, Key: "hostcanary"},
+				{Op: "I", Flag: true, Key: "hostcanary", Sub: &Action{Op: "O"}}, {Op: "H", Key: "hostcanary"}}},
+			{Name: "hostkeep", Files: files, Body: []Action{{Op: "P", Path: "bin", Flag: true}, {Op: "H", Key: "hostcanary"}, {Op: "H", Flag: true, Key: "nosuchprog-zz"}, {Op: "O"}}},
+			{Name: "latewrite", Files: files, Body: []Action{{Op: "D", ID: 1}, {Op: "G", ID: 50, Flag: true}, {Op: "O"}, {Op: "F"}}},
+			{Name: "lateskip", Files: files, Body: []Action{{Op: "G", ID: 51, Flag: true}, {Op: "K"}}},
+		}
+		addB(hb, "hand")
+		hc := hb
+		hc.Scripts = append([]Script{}, hb.Scripts...)
+		hc.ContinueOnError = true
+		addB(hc, "hand")
 	}
 	// the same scripts under a T that runs the subtests one after the other
 	sq := exitPathsBatch()
